@@ -1,6 +1,7 @@
 """The device link as the middleware sees it: a ledgerblue-like dongle object whose failure
 objects are exactly the ones `HSM2Dongle._send_command` classifies in production, in front of a
 simulated device. Everything that crosses the link is appended to `World.log`."""
+import os
 import types
 
 from . import env
@@ -21,6 +22,10 @@ class World:
         self.on_event = None            # callable(event) (used by C12 for global ordering)
         self.dongles = []
         self.crash_at = None            # callable(event) -> bool : os._exit(77) when true
+        # how a time-out is realised: False = the answer is lost; True = the answer arrives after the host gave
+        # up and stays queued on the open handle (ledgerblue's HID and TCP transports do not drain on a
+        # time-out), so whoever goes on using the SAME handle reads its predecessor's answer; closing drops it
+        self.late_answers = os.environ.get("VERIF_LATE_ANSWERS", "") == "1"
 
     # ---- logging
     def emit(self, ev):
@@ -62,6 +67,7 @@ class FakeDongle:
     def __init__(self, world):
         self.world = world
         self.opened = True
+        self.queued = []                # answers that arrived after the host stopped waiting
 
     def close(self):
         self.opened = False
@@ -120,6 +126,9 @@ class FakeDongle:
                 raise OSError("read error")
             if kind == "timeout":
                 ev["fault"] = "timeout"
+                if w.late_answers:
+                    ev["late"] = True
+                    self.queued.append((sw, bytes(data)))
                 w.emit(ev)
                 raise CommException("Timeout")
             if kind == "sw":
@@ -143,6 +152,11 @@ class FakeDongle:
                 ev["fault"] = "exc"
                 w.emit(ev)
                 raise fault[1]
+        if self.queued:
+            # the host reads the oldest answer still queued, not the one to this command
+            self.queued.append((sw, bytes(data)))
+            sw, data = self.queued.pop(0)
+            ev["stale"] = True
         ev["sw"] = sw
         ev["resp"] = bytes(data)
         w.emit(ev)
